@@ -20,6 +20,26 @@ def check_value(label, v, part):
             if res.text != base.text:
                 part.violation('one-line-value-broken-although-it-fits', dict(desc, config={'width': w, 'ribbon_width': r}),
                                {'output': res.text, 'one_line': base.text, 'exc': res.exc})
+    # the same document laid out twice: narrow first, then wide enough.  Whatever the first layout left on
+    # the document (lazily normalised branches, evaluated contextual parts) must not make the second break.
+    try:
+        import importlib
+        pp = importlib.import_module('prettyprinter.prettyprinter')
+        from prettyprinter.layout import layout_smart
+        from prettyprinter.render import default_render_to_str
+        ctx = pp.PrettyContext(indent=4, depth_left=float('inf'), visited=set(), max_seq_len=1000, sort_dict_keys=False)
+        doc = pp.pretty_python_value(v, ctx)
+        if not pp.is_commented(doc):
+            for w0 in (max(1, L // 3), max(1, L - 1)):
+                default_render_to_str(layout_smart(doc, width=w0, ribbon_frac=1.0))
+                part.n += 1
+                part.c['value_prints'] += 1
+                again = default_render_to_str(layout_smart(doc, width=L, ribbon_frac=1.0))
+                if again != base.text:
+                    part.violation('document-laid-out-narrow-then-wide-stays-broken', dict(desc, config={'first_width': w0, 'then_width': L}),
+                                   {'output': again, 'one_line': base.text})
+    except (ImportError, AttributeError, TypeError):
+        part.c['doc_reuse_subcheck_skipped'] += 1
     breaks = 0
     for w in (L - 1, L - 2):
         if w >= 1:
